@@ -17,6 +17,7 @@ mk dectomindec "decToMinDec prints 60" C20 "minutes-range"
 mk mailbox-atomic "mailbox writes message files in place" C11 "shape:function-exists"
 mk mailbox-mid "remote-chosen MIDs" C12 "shape:function-exists"
 mk mailbox-p2p "leaks private headers" C10 "stripped"
+mk fbb-crc "bad CRC-16 or size is delivered" C04 "data/"
 mk agwpe-port "frames ignore the port" C13 "Frame/post"
 mk agwpe-readfull "arrives in more than one TCP segment" C13 "ReadFrom/"
 mk agwpe-read "agwpe Conn.Read panics" C13 "contract errors"
